@@ -143,6 +143,10 @@ func (i *interpreter) intercept(caller *frame, callpos token.Pos, fn *ssa.Functi
 	if name == "init" && fn.Pkg != nil && fn.Synthetic == "package initializer" {
 		if initDenied(fn.Pkg.Pkg.Path()) {
 			i.inited[fn.Pkg] = true
+			if i.deniedInit == nil {
+				i.deniedInit = map[*ssa.Package]bool{}
+			}
+			i.deniedInit[fn.Pkg] = true
 			return nil, true
 		}
 		i.inited[fn.Pkg] = true
@@ -674,6 +678,13 @@ func init() {
 		"runtime.NumCPU":    func(i *interpreter, _ *frame, _ *ssa.Function, a []value) value { return 4 },
 		"runtime.Goexit": func(i *interpreter, _ *frame, _ *ssa.Function, a []value) value {
 			panic(unmodelled{"runtime.Goexit"})
+		},
+		// struct-tag validation is reflection over tables the engine never initialises: fail closed
+		"(*github.com/go-playground/validator/v10.Validate).Struct": func(i *interpreter, _ *frame, _ *ssa.Function, a []value) value {
+			panic(unmodelled{"go-playground/validator.Struct (reflection-based struct-tag validation)"})
+		},
+		"(*github.com/go-playground/validator/v10.Validate).StructCtx": func(i *interpreter, _ *frame, _ *ssa.Function, a []value) value {
+			panic(unmodelled{"go-playground/validator.StructCtx (reflection-based struct-tag validation)"})
 		},
 		"os.Exit": func(i *interpreter, _ *frame, _ *ssa.Function, a []value) value {
 			panic(targetPanic{iface{i.runtimeErrorString, "os.Exit called"}})
